@@ -2,6 +2,6 @@ SPECIFICATION Spec
 CONSTANTS W = 2
           WS = 1
           Deep = {"int8", "N1"}
-          OptSet = {"default", "useall", "export", "exporttop"}
+          OptSet = {"default", "useall", "export", "exporttop", "tng", "tng_export", "tng_exporttop"}
 INVARIANTS Emit EmitPoints
 CHECK_DEADLOCK FALSE
